@@ -71,6 +71,8 @@ func runDescribe(e *Env) {
 		srv = e.F.ListenUDPOn(gwIP, gwPort)
 	}
 	var reqFrom *net.UDPAddr
+	// responses that are well formed by construction, whatever the library's decoder makes of them (raw bytes -> friendly name)
+	wellFormed := map[string]string{}
 	var reqs [][]byte
 	s.Spawn("server-rx", func() {
 		buf := make([]byte, 2048)
@@ -108,11 +110,22 @@ func runDescribe(e *Env) {
 					extra = append(extra, blk...)
 				}
 			}
-			good := mkFrame(svcDescrRes, append(append(mkDeviceDIB(fmt.Sprintf("dev%d", i)), mkFamDIB(1+i%4)...), extra...))
+			// friendly names of every length, up to one that fills the 30-octet field without a terminator
+			devName := fmt.Sprintf("dev%d", i)
+			switch e.Choose("wl.namelen", 5) {
+			case 2:
+				devName = (devName + "-abcdefghijklmnopqrstuvwxyz01234")[:29]
+			case 3:
+				devName = (devName + "-abcdefghijklmnopqrstuvwxyz01234")[:30]
+			case 4:
+				devName = ""
+			}
+			good := mkFrame(svcDescrRes, append(append(mkDeviceDIB(devName), mkFamDIB(1+i%4)...), extra...))
 			other := mkFrame(svcDescrRes, append(append(mkDeviceDIB(fmt.Sprintf("x%d", i)), mkFamDIB(2)...), bytesOf(0x55, len(extra))...))
 			if discover {
-				good = mkFrame(svcSearchRes, append(append(mkHPAI(1, [4]byte{10, 0, 1, byte(i)}, 3671), mkDeviceDIB(fmt.Sprintf("dev%d", i))...), mkFamDIB(1+i%4)...))
+				good = mkFrame(svcSearchRes, append(append(mkHPAI(1, [4]byte{10, 0, 1, byte(i)}, 3671), mkDeviceDIB(devName)...), mkFamDIB(1+i%4)...))
 			}
+			wellFormed[string(good)], wellFormed[string(other)] = devName, fmt.Sprintf("x%d", i)
 			send := func(b []byte) { srv.WriteToUDP(b, to) }
 			noise := func() {
 				switch e.Choose("wl.noise", 6) {
@@ -284,7 +297,15 @@ func runDescribe(e *Env) {
 		for _, r := range reads {
 			svc, _, derr, p := refDecode(r.raw)
 			if derr != nil || p != "" {
-				continue
+				if nm, ok := wellFormed[string(r.raw)]; ok && parseFrame(r.raw).Svc == svcSearchRes {
+					// a response that is well formed by construction but that the library's own
+					// decoder turns down: it still counts as received (the result cannot match it)
+					sr := &knxnet.SearchRes{}
+					sr.DescriptionB.DeviceHardware.FriendlyName = "<well-formed response with name " + nm + " which the decoder rejects>"
+					svc, derr, p = sr, nil, ""
+				} else {
+					continue
+				}
 			}
 			sr, ok := svc.(*knxnet.SearchRes)
 			if !ok {
@@ -322,7 +343,13 @@ func runDescribe(e *Env) {
 		for _, r := range reads {
 			svc, _, derr, p := refDecode(r.raw)
 			if derr != nil || p != "" {
-				continue
+				if nm, ok := wellFormed[string(r.raw)]; ok && parseFrame(r.raw).Svc == svcDescrRes {
+					dr := &knxnet.DescriptionRes{}
+					dr.DeviceHardware.FriendlyName = "<well-formed response with name " + nm + " which the decoder rejects>"
+					svc, derr, p = dr, nil, ""
+				} else {
+					continue
+				}
 			}
 			if dr, ok := svc.(*knxnet.DescriptionRes); ok {
 				first, firstAt = dr, r.at
